@@ -40,6 +40,8 @@ def load_contracts(src):
     import contracts.composites as comp
     if 'construct.core:Struct._parse' not in contract.REGISTRY:
         comp.register_composites(src)
+        import contracts.unions as _un
+        _un.register_unions(src)
     import contracts.classes as cc
     gens = cc.generic_contracts(src)
     from contracts.prims import LOOPS
@@ -348,6 +350,17 @@ def conclude(pid, P, tier, seed, a, t0, src, results, oor, stats, functions, ext
                               'source': 'native round-trip battery after failed obligation'}
             if getattr(r, 'support', False):
                 return None, 'supporting contract no longer holds, but %d directed round trips all succeed on the real code' % n
+        if pid == 'C09':
+            from contracts import posbattery
+            if 'pos' not in _cache:
+                try:
+                    _cache['pos'] = posbattery.run(C)
+                except Exception as e:
+                    _cache['pos'] = (0, [])
+            n, fails = _cache['pos']
+            if fails:
+                return True, {'input': fails[0], 'observed': '%d of %d directed position cases fail on the real code' % (len(fails), n), 'more': fails[1:6],
+                              'source': 'native position battery after failed obligation'}
         if 'scope' in r.name.rsplit('/', 1)[-1]:
             from contracts import scopecheck
             try:
